@@ -609,20 +609,20 @@ Fixpoint deser_loop (fuel : nat) (todo : list N) (count : nat) (bs : list N)
       end
   end.
 
-(** Children of record [i]: the later records whose parent index is [i], in order. *)
-Fixpoint build (fuel : nat) (recs : list (N * nat * drec)) (i : nat) (d : drec) : tree value :=
-  match fuel with
-  | O => Node (d_path d) (option_map fst (d_value d)) FNil
-  | S fuel' =>
-      Node (d_path d) (option_map fst (d_value d))
-           ((fix kids (l : list (N * nat * drec)) (j : nat) : forest value :=
-               match l with
-               | [] => FNil
-               | (key, parent, dj) :: rest =>
-                   if andb (Nat.eqb parent i) (Nat.ltb i j)
-                   then FCons key (build fuel' recs j dj) (kids rest (S j))
-                   else kids rest (S j)
-               end) recs O)
+(** Reassembly.  [Hashed<Node>::deserialize] pushes every record, as it is read, to the
+    children of the record [d_back] places before it; so the children of record [i] are the
+    later records whose parent is [i], in reading order.  Functionally: go through the
+    records from the last to the first, keeping for every index the children collected so
+    far ([pending]); when record [start] is reached all its children have been collected.
+    A record that names itself as parent (the root: distance 0) is attached nowhere. *)
+Fixpoint rebuild (start : nat) (recs : list (N * nat * drec)) : nat -> forest value :=
+  match recs with
+  | [] => fun _ => FNil
+  | (key, parent, d) :: rest =>
+      let pending := rebuild (S start) rest in
+      let node := Node (d_path d) (option_map fst (d_value d)) (pending start) in
+      if Nat.eqb parent start then pending
+      else fun i => if Nat.eqb i parent then FCons key node (pending i) else pending i
   end.
 
 (** Result: the tree and the hash stored with the root ([PersistentState::deserialize]). *)
@@ -632,7 +632,7 @@ Definition deserialize (bs : list N) : option (option (tree value * list N) * li
   | 1 :: r =>
       match deser_loop (S (length r)) [0] O r with
       | Some ((_, _, d0) :: rest, r') =>
-          Some (Some (build (S (length rest)) ((0, O, d0) :: rest) O d0, d_hash d0), r')
+          Some (Some (Node (d_path d0) (option_map fst (d_value d0)) (rebuild 1 rest O), d_hash d0), r')
       | _ => None
       end
   | _ => None
